@@ -443,6 +443,65 @@ def rule_model(ctx, wiring, max_ops, deno_ops):
     ctx.exhaustive = {"domain": "all combinator expressions with <= %d operators over leaves {a, b}" % max_ops, "size": stats["expressions"]}
 
 
+
+# ------------------------------------------------------------------------------------------------
+# R5  subset construction: where a DFA edge may point
+# ------------------------------------------------------------------------------------------------
+def rule_r5(ctx):
+    """Every edge stored in a DFA state's edge map points to the DFA state of the ε-closure of the move set: the id looked up in /
+    freshly allocated for `epsilon_closure(flat_map(state -> edges.get(symbol)))`.  A shortcut that reuses another id (the current
+    state for a "self loop", a cached neighbour) keeps NFA states alive that the symbol does not reach."""
+    from ..flow import origins as forigins, expr as fexpr, arg_place as farg_place
+    from ..mir import call_matches
+    prog = ctx.prog
+    ctx.rule("R5-SUBSET", "compile(): every (symbol -> DFAState) edge inserted for a state targets the id found in / allocated from the closure table for "
+                          "epsilon_closure(move(state, symbol)); the work list and the table receive that same closure", floor=3)
+    comp = prog.one(r"^automata::NFA::<T>::compile$")
+    if comp is None:
+        ctx.anchor("R5-SUBSET", "compile")
+        return
+    where = "automata::NFA::compile"
+    ins = [(bb, t) for bb, t in comp.calls() if call_matches(t, r"BTreeMap::<K, V, A>::insert$") and len(t["args"]) == 3]
+    edge_ins = [(bb, t) for bb, t in ins if t["arg_tys"][1] == "u8" and t["arg_tys"][2].endswith("DFAState")]
+    closure_tab = [(bb, t) for bb, t in ins if "BTreeSet<automata::NFAStateId>" in t["arg_tys"][1] and t["arg_tys"][2].endswith("DFAState")]
+    if not edge_ins or not closure_tab:
+        ctx.anchor("R5-SUBSET", "compile/edge-insert", "the insertion of DFA edges or the closure table is not recognised")
+        return
+    tab_place = farg_place(comp, closure_tab[0][1], 0)
+    for bb, t in edge_ins:
+        og = forigins(comp, t["args"][2])
+        bad = []
+        for o in og:
+            if o[0] == "call" and re.search(r"BTreeMap::<K, V, A>::(get|len)$", o[2]):
+                ct = comp.blocks[o[1]]["term"]
+                same_tab = farg_place(comp, ct, 0) == tab_place
+                key_ok = True
+                if o[2].endswith("::get"):
+                    key_ok = "NFA::epsilon_closure(" in fexpr(comp, ct["args"][1])
+                if same_tab and key_ok:
+                    continue
+            bad.append(o)
+        ctx.instance("R5-SUBSET", {"edge_insert_block": bb, "target_origins": sorted(str(o) for o in og), "ok": not bad and bool(og)})
+        if bad or not og:
+            ctx.violation("R5-SUBSET", where, "edge-target", "a DFA edge is stored whose target does not come from the closure table entry of epsilon_closure(move(state, symbol)) "
+                          "(origins %s): NFA states the symbol does not reach stay alive, so strings outside the language are accepted" % sorted(str(o) for o in bad or og),
+                          sites=["%s:%d" % (comp.file, t["line"])])
+    # the closure inserted into the table (with the fresh id) is the ε-closure of the move set over edges.get(symbol)
+    for bb, t in closure_tab:
+        k = fexpr(comp, t["args"][1])
+        v = fexpr(comp, t["args"][2])
+        if v == "DFAState(0)":
+            ok = "NFA::epsilon_closure(arg1, iter::once(arg1.start))" in k
+            ctx.instance("R5-SUBSET", {"initial_state": k[:100], "ok": ok})
+            if not ok:
+                ctx.violation("R5-SUBSET", where, "initial-state", "DFA state 0 is not the ε-closure of the NFA start state: %s" % k[:120], sites=["%s:%d" % (comp.file, t["line"])])
+        else:
+            ok = re.search(r"NFA::epsilon_closure\(arg1, .*Iterator::flat_map\(", k) is not None and re.fullmatch(r"DFAState\(BTreeMap::len\(.*\)\)", v) is not None
+            ctx.instance("R5-SUBSET", {"new_state_key": k[:100], "id": v[:60], "ok": ok})
+            if not ok:
+                ctx.violation("R5-SUBSET", where, "new-state", "a new DFA state is registered with key %s / id %s instead of the ε-closure of the move set with the next free id" % (k[:100], v[:60]),
+                              sites=["%s:%d" % (comp.file, t["line"])])
+
 # ------------------------------------------------------------------------------------------------
 # R4
 # ------------------------------------------------------------------------------------------------
@@ -893,3 +952,4 @@ def run(ctx):
         rule_model(ctx, wiring, 2, 2)
     rule_r4(ctx)
     rule_r4_table(ctx)
+    rule_r5(ctx)
